@@ -58,6 +58,10 @@ func validateJSONPatches(patches []byte) error {
 			return fmt.Errorf("%s: path not found", patch.JSONPatch)
 		}
 
+		if pathMsg == nil {
+			return fmt.Errorf("%s: invalid path", patch.JSONPatch)
+		}
+
 		var path string
 		if err := json.Unmarshal(*pathMsg, &path); err != nil {
 			return fmt.Errorf("%s: invalid path", patch.JSONPatch)
